@@ -27,7 +27,10 @@ Inductive fcase :=
    chunk is what remains); per partition the index of the observed event list *)
 | CDrive (data : bytes) (tbl : list (list oev)) (parts : list (list nat * nat))
 (* Write(m) = out; the head map of m in the harness' (sorted) order *)
-| CWrite (m : rpcmsg) (out : bytes).
+| CWrite (m : rpcmsg) (out : bytes)
+(* two connections on ONE handler instance: the bytes each receives (possibly cut off
+   mid-frame), the arrival schedule (false = A, true = B; chunk length), what each delivered *)
+| CInterleave (dataA dataB : bytes) (sched : list (bool * nat)) (evA evB : list oev).
 
 (* ---- comparisons ---- *)
 Fixpoint lookup_h (h : headmap) (k : bytes) : option bytes :=
@@ -81,7 +84,8 @@ Fixpoint cut (data : bytes) (lens : list nat) : list bytes :=
    2 Read on a prefix differs from frame_read on that prefix       (correspondence)
    3 deliveries of the receive loop differ from drive              (correspondence)
    4 Write differs from frame_write                                (correspondence)
-   5 malformed case (table index out of range)                                     *)
+   5 malformed case (table index out of range)
+   6 per-connection deliveries of two interleaved connections differ from drive2   (correspondence)                                     *)
 Fixpoint check_prefixes (data : bytes) (tbl : list ores) (k : nat) (obs : list nat) : list N :=
   match obs with
   | [] => []
@@ -116,12 +120,24 @@ Definition check_write (m : rpcmsg) (out : bytes) : list N :=
   | _ => [4]
   end.
 
+Fixpoint build_sched (a b : bytes) (sched : list (bool * nat)) : list (bool * bytes) :=
+  match sched with
+  | [] => []
+  | (false, n) :: s => (false, firstn n a) :: build_sched (skipn n a) b s
+  | (true, n) :: s => (true, firstn n b) :: build_sched a (skipn n b) s
+  end.
+
+Definition check_interleave (a b : bytes) (sched : list (bool * nat)) (evA evB : list oev) : list N :=
+  let '(ma, mb) := drive2 conn0 conn0 (build_sched a b sched) in
+  if evs_eqb ma evA && evs_eqb mb evB then [] else [6].
+
 Definition check_case (c : fcase) : list N :=
   match c with
   | CRead data o => if res_eqb (frame_read data) o then [] else [1]
   | CPrefixes data tbl obs => check_prefixes data tbl 0 obs
   | CDrive data tbl parts => check_parts data tbl parts
   | CWrite m out => check_write m out
+  | CInterleave a b sched evA evB => check_interleave a b sched evA evB
   end.
 
 Fixpoint mismatches_from (i : nat) (cs : list fcase) : list (nat * N) :=
